@@ -244,7 +244,7 @@ Definition comp_ok (c : nat -> nat -> @frag Q) (pushed : list (value Q)) : Prop 
 Lemma cseq_ok : forall cs ps, Forall2 comp_ok cs ps -> comp_ok (cseq cs) (concat (rev ps)).
 Proof.
   induction 1 as [|c p cs ps Hc Hr IH]; unfold comp_ok; intros nk na ip stk s Hs Hl Ha Hk Hm.
-  - simpl. exists 0. simpl. rewrite Nat.add_0_r. reflexivity.
+  - simpl. exists 0. simpl. try rewrite Nat.add_0_r; reflexivity.
   - simpl in *. apply at_code_app in Ha. destruct Ha as [Ha1 Ha2].
     apply consts_at_app in Hk. destruct Hk as [Hk1 Hk2].
     apply nomark_app in Hm. destruct Hm as [Hm1 Hm2].
@@ -256,4 +256,441 @@ Proof.
 Qed.
 
 End Comp.
+
+(* ---- the relation between the compiler's scope tables and the reference world *)
+Definition cenv_rel (ce : cenv) (vg vn vf : nat) : Prop :=
+  c_globals ce = map fst (firstn vg (w_globals W)) /\
+  c_chunks ce = "<main>"%string :: map fst (firstn vn (w_fns W)) /\
+  (forall x, match fn_lookup x (c_functions ce) with
+             | Some true => mem x (firstn vf (w_foreign W)) = true
+             | Some false => find_last x (firstn vn (w_fns W)) <> None
+             | None => mem x (firstn vf (w_foreign W)) = false /\ find_last x (firstn vn (w_fns W)) = None
+             end) /\
+  (exists rest, p_ffi C = c_ffi ce ++ rest) /\
+  (forall x, match index_of x (c_ffi ce) with
+             | Some _ => mem x (procs O ++ firstn vf (w_foreign W)) = true
+             | None => mem x (procs O ++ firstn vf (w_foreign W)) = false
+             end) /\
+  (exists rest, p_structs C = c_structs ce ++ rest) /\
+  (exists rest, w_structs W = c_structs ce ++ rest).
+
+Lemma cenv_rel_locals : forall ce ls vg vn vf, cenv_rel ce vg vn vf -> cenv_rel (with_locals ce ls) vg vn vf.
+Proof. intros. exact H. Qed.
+
+Definition RelW : Prop :=
+  (forall i name fd, nth_error (w_fns W) i = Some (name, fd) ->
+     exists ce nk na,
+       nth_error (p_chunks C) (S i)
+         = Some (name, f_code (cfun ce (fd_params fd) (fd_locals fd) (fd_body fd) nk na)) /\
+       consts_at nk (f_consts (cfun ce (fd_params fd) (fd_locals fd) (fd_body fd) nk na)) /\
+       nomark (f_code (cfun ce (fd_params fd) (fd_locals fd) (fd_body fd) nk na)) /\
+       cenv_rel ce (fd_nglob fd) (S i) (fd_nforeign fd)) /\
+  (forall x, mem x (procs O ++ w_foreign W) = true -> index_of x (p_ffi C) <> None) /\
+  (forall name idx, stale name idx = false -> rposition name (chunk_names C) = Some idx).
+
+Definition expr_ok (n : nat) : Prop :=
+  forall vg vn vf L e v,
+    eval O stale n W vg vn vf L e = Ok v ->
+    forall ce fi fp frs, cenv_rel ce vg vn vf -> comp_ok ce L fi fp frs (cexpr ce e) [v].
+
+(* ---- stack access *)
+Lemma nth_error_firstn_some {A} : forall n (l : list A) p a,
+  nth_error (firstn n l) p = Some a -> nth_error l p = Some a.
+Proof.
+  induction n; intros l p a; simpl.
+  - destruct p; discriminate.
+  - destruct l; [destruct p; discriminate|]. destruct p; simpl; [auto | apply IHn].
+Qed.
+
+Lemma stack_get_global : forall (stk upper : list (value Q)) vals p a,
+  stk = upper ++ rev vals -> nth_error vals p = Some a -> stack_get stk p = Some a.
+Proof.
+  intros. unfold stack_get. subst stk. rewrite rev_app_distr, rev_involutive.
+  apply nth_error_app_l. assumption.
+Qed.
+
+Lemma stack_get_local : forall (stk temps below : list (value Q)) vals p a,
+  stk = temps ++ rev vals ++ below -> nth_error vals p = Some a ->
+  stack_get stk (length below + p) = Some a.
+Proof.
+  intros. unfold stack_get. subst stk. rewrite !rev_app_distr, rev_involutive.
+  rewrite <- app_assoc. rewrite nth_error_app2 by (rewrite rev_length; lia).
+  rewrite rev_length. replace (length below + p - length below) with p by lia.
+  apply nth_error_app_l. assumption.
+Qed.
+
+Lemma skipn_length_app {A} : forall (a b : list A), skipn (length a) (a ++ b) = b.
+Proof. induction a; simpl; auto. Qed.
+
+Lemma firstn_length_app {A} : forall (a b : list A), firstn (length a) (a ++ b) = a.
+Proof. induction a; simpl; intros; [reflexivity | f_equal; auto]. Qed.
+
+(* one emitted instruction *)
+Lemma run_one : forall fi ip fp frs stk s i rest s',
+  at_code fi ip (i :: rest) ->
+  exec O C i (F fi (ip + isize i) fp) frs (St fi ip fp frs stk s) = SNext s' ->
+  steps 1 (St fi ip fp frs stk s) = Some s'.
+Proof. intros. apply steps_one. rewrite (step_at _ _ _ _ _ _ _ _ H). assumption. Qed.
+
+
+(* ---- leaves *)
+Lemma ok_const : forall ce L fi fp frs c,
+  comp_ok ce L fi fp frs
+    (fun nk na => {| f_consts := [c]; f_code := [ILoadConstant nk]; f_na := na |}) [const_to_value c].
+Proof.
+  unfold comp_ok; simpl; intros ce L fi fp frs c nk na ip stk s Hs Hl Ha Hk Hm.
+  exists 1. eapply run_one; [exact Ha|]. simpl.
+  rewrite (consts_at_nth _ _ _ Hk). try rewrite Nat.add_0_r; reflexivity.
+Qed.
+
+Lemma ok_ident : forall vg vn vf L x v ce fi fp frs,
+  match find_last x L with
+  | Some (_, v) => Ok v
+  | None =>
+      match find_last x (firstn vg (w_globals W)) with
+      | Some (_, v) => Ok v
+      | None =>
+          if is_last_result x then
+            match w_last W with Some v => Ok v | None => Wrong end
+          else
+            match find_last x (firstn vn (w_fns W)), mem x (firstn vf (w_foreign W)) with
+            | Some (i, _), false => Ok (VFun (FNormal x (S i)))
+            | None, true => Ok (VFun (FForeign x))
+            | _, _ => Wrong
+            end
+      end
+  end = Ok v ->
+  cenv_rel ce vg vn vf -> comp_ok ce L fi fp frs (cident ce x) [v].
+Proof.
+  intros vg vn vf L x v ce fi fp frs H Hrel.
+  destruct Hrel as (Hg & Hch & Hfn & _).
+  (* the part after the two scopes *)
+  assert (After :
+    find_last x L = None -> find_last x (firstn vg (w_globals W)) = None ->
+    comp_ok ce L fi fp frs
+      (fun nk na =>
+         if is_last_result x then {| f_consts := []; f_code := [IGetLastResult]; f_na := na |}
+         else match fn_lookup x (c_functions ce) with
+              | Some is_foreign =>
+                  let r := if is_foreign then FForeign x
+                           else FNormal x (match rposition x (c_chunks ce) with Some i => i | None => 0 end) in
+                  {| f_consts := [CFunRef r]; f_code := [ILoadConstant nk]; f_na := na |}
+              | None => {| f_consts := []; f_code := [ICompilePanic]; f_na := na |}
+              end) [v]).
+  { intros E1 E2. rewrite E1, E2 in H.
+    destruct (is_last_result x).
+    - unfold comp_ok; simpl; intros nk na ip stk s Hs Hl Ha Hk Hm.
+      destruct (w_last W) as [w|] eqn:Ew; [|discriminate]. inversion H; subst w.
+      exists 1. eapply run_one; [exact Ha|]. simpl. rewrite Hl. try rewrite Nat.add_0_r; reflexivity.
+    - specialize (Hfn x).
+      pose proof (rposition_find_last x (firstn vn (w_fns W))) as Hr.
+      destruct (find_last x (firstn vn (w_fns W))) as [[i fd]|] eqn:Ef;
+        destruct (mem x (firstn vf (w_foreign W))) eqn:Em; try discriminate.
+      + (* normal *)
+        inversion H; subst v.
+        destruct (fn_lookup x (c_functions ce)) as [[|]|].
+        * congruence.
+        * rewrite Hch. rewrite rposition_cons.
+          destruct (rposition x (map fst (firstn vn (w_fns W)))) as [j|]; [|contradiction].
+          destruct Hr as [Hr _]. subst j.
+          apply (ok_const ce L fi fp frs (CFunRef (FNormal x (S i)))).
+        * destruct Hfn. congruence.
+      + (* foreign *)
+        inversion H; subst v.
+        destruct (fn_lookup x (c_functions ce)) as [[|]|].
+        * apply (ok_const ce L fi fp frs (CFunRef (FForeign x))).
+        * congruence.
+        * destruct Hfn. congruence. }
+  unfold cident.
+  pose proof (rposition_find_last x L) as HL.
+  pose proof (rposition_find_last x (firstn vg (w_globals W))) as HG.
+  rewrite <- Hg in HG.
+  unfold comp_ok; intros nk na ip stk s Hs Hl Ha Hk Hm.
+  destruct Hs as [[upper Hup] Hloc].
+  assert (Hs' : stack_ok ce L fp stk) by (split; [exists upper; exact Hup | exact Hloc]).
+  destruct (c_locals ce) as [ls|] eqn:Ecl.
+  - destruct Hloc as [Els (temps & below & Hstk & Hlen)]. subst ls.
+    destruct (rposition x (map fst L)) as [p|].
+    + destruct (find_last x L) as [[j a]|]; [|contradiction].
+      destruct HL as [_ Hn]. inversion H; subst a. simpl in *.
+      apply nomark_one in Hm. destruct Hm as [Hm _]. apply chk16_ok in Hm. destruct Hm as [Hm _].
+      rewrite Hm in *. exists 1. eapply run_one; [exact Ha|]. simpl.
+      rewrite <- Hlen. rewrite (stack_get_local _ _ _ _ _ _ Hstk Hn). try rewrite Nat.add_0_r; reflexivity.
+    + destruct (find_last x L) as [[j a]|] eqn:EL; [contradiction|].
+      destruct (rposition x (c_globals ce)) as [p|].
+      * destruct (find_last x (firstn vg (w_globals W))) as [[j a]|]; [|contradiction].
+        destruct HG as [_ Hn]. inversion H; subst a. simpl in *.
+        apply nomark_one in Hm. destruct Hm as [Hm _]. apply chk16_ok in Hm. destruct Hm as [Hm _].
+        rewrite Hm in *. exists 1. eapply run_one; [exact Ha|]. simpl.
+        assert (Hn' : nth_error (map snd (w_globals W)) p = Some v).
+        { rewrite <- firstn_map in Hn. eapply nth_error_firstn_some. exact Hn. }
+        rewrite (stack_get_global _ _ _ _ _ Hup Hn'). try rewrite Nat.add_0_r; reflexivity.
+      * destruct (find_last x (firstn vg (w_globals W))) as [[j a]|] eqn:EG; [contradiction|].
+        apply (After eq_refl eq_refl nk na ip stk s Hs' Hl Ha Hk Hm).
+  - destruct Hloc as [EL Efp]. subst L fp. simpl in H.
+    destruct (rposition x (c_globals ce)) as [p|].
+    + destruct (find_last x (firstn vg (w_globals W))) as [[j a]|]; [|contradiction].
+      destruct HG as [_ Hn]. inversion H; subst a. simpl in *.
+      apply nomark_one in Hm. destruct Hm as [Hm _]. apply chk16_ok in Hm. destruct Hm as [Hm _].
+      rewrite Hm in *. exists 1. eapply run_one; [exact Ha|]. simpl.
+      assert (Hn' : nth_error (map snd (w_globals W)) p = Some v).
+      { rewrite <- firstn_map in Hn. eapply nth_error_firstn_some. exact Hn. }
+      rewrite (stack_get_global _ _ _ _ _ Hup Hn'). try rewrite Nat.add_0_r; reflexivity.
+    + destruct (find_last x (firstn vg (w_globals W))) as [[j a]|] eqn:EG; [contradiction|].
+      apply (After eq_refl eq_refl nk na ip stk s Hs' Hl Ha Hk Hm).
+Qed.
+
+
+Lemma bind_ok {A B} : forall (r : res A) (f : A -> res B) v,
+  bind r f = Ok v -> exists a, r = Ok a /\ f a = Ok v.
+Proof. intros r f v H. destruct r; simpl in H; try discriminate. eauto. Qed.
+
+(* run [c], then the code [tail] *)
+Lemma ok_then : forall ce L fi fp frs (c c' : nat -> nat -> @frag Q) pushed result
+                       (tail : nat -> nat -> list instr) (tailk : nat -> nat -> list (const Q)),
+  comp_ok ce L fi fp frs c pushed ->
+  (forall nk na, f_code (c' nk na) = f_code (c nk na) ++ tail nk na /\
+                 f_consts (c' nk na) = f_consts (c nk na) ++ tailk nk na) ->
+  (forall nk na ip stk s,
+      nomark (tail nk na) -> stack_ok ce L fp stk -> m_last s = w_last W ->
+      at_code fi ip (tail nk na) -> consts_at (nk + length (f_consts (c nk na))) (tailk nk na) ->
+      exists k, steps k (St fi ip fp frs (pushed ++ stk) s)
+                = Some (St fi (ip + csize (tail nk na)) fp frs (result ++ stk) s)) ->
+  comp_ok ce L fi fp frs c' result.
+Proof.
+  intros ce L fi fp frs c c' pushed result tail tailk Hc Heq Ht.
+  unfold comp_ok; intros nk na ip stk s Hs Hl Ha Hk Hm.
+  destruct (Heq nk na) as [E1 E2]. rewrite E1 in *. rewrite E2 in *.
+  apply at_code_app in Ha. destruct Ha as [Ha1 Ha2].
+  apply consts_at_app in Hk. destruct Hk as [Hk1 Hk2].
+  apply nomark_app in Hm. destruct Hm as [Hm1 Hm2].
+  destruct (Hc nk na ip stk s Hs Hl Ha1 Hk1 Hm1) as [k1 S1].
+  destruct (Ht nk na _ stk s Hm2 Hs Hl Ha2 Hk2) as [k2 S2].
+  exists (k1 + k2). rewrite (steps_trans _ _ _ _ _ S1 S2). rewrite csize_app, Nat.add_assoc. reflexivity.
+Qed.
+
+(* run [c], then one instruction that rewrites the top of the stack *)
+Lemma ok_emit : forall ce L fi fp frs (c c' : nat -> nat -> @frag Q) pushed result (i : nat -> nat -> instr),
+  comp_ok ce L fi fp frs c pushed ->
+  (forall nk na, f_code (c' nk na) = f_code (c nk na) ++ [i nk na] /\
+                 f_consts (c' nk na) = f_consts (c nk na)) ->
+  (forall nk na ip stk s,
+      is_marker (i nk na) = false -> stack_ok ce L fp stk -> m_last s = w_last W ->
+      exec O C (i nk na) (F fi (ip + isize (i nk na)) fp) frs (St fi ip fp frs (pushed ++ stk) s)
+      = SNext (St fi (ip + isize (i nk na)) fp frs (result ++ stk) s)) ->
+  comp_ok ce L fi fp frs c' result.
+Proof.
+  intros ce L fi fp frs c c' pushed result i Hc Heq Hi.
+  apply (ok_then ce L fi fp frs c c' pushed result (fun nk na => [i nk na]) (fun _ _ => [])); [exact Hc| |].
+  - intros nk na. destruct (Heq nk na) as [E1 E2]. rewrite E1, E2, app_nil_r. split; reflexivity.
+  - intros nk na ip stk s Hm Hs Hl Ha _. apply nomark_one in Hm. destruct Hm as [Hm _].
+    exists 1. simpl. rewrite Nat.add_0_r.
+    eapply run_one; [exact Ha|]. apply Hi; assumption.
+Qed.
+
+Lemma ok_seq2 : forall ce L fi fp frs (c1 c2 c' : nat -> nat -> @frag Q) p1 p2,
+  comp_ok ce L fi fp frs c1 p1 -> comp_ok ce L fi fp frs c2 p2 ->
+  (forall nk na, f_code (c' nk na)
+                 = f_code (c1 nk na) ++ f_code (c2 (nk + length (f_consts (c1 nk na))) (f_na (c1 nk na))) /\
+                 f_consts (c' nk na)
+                 = f_consts (c1 nk na) ++ f_consts (c2 (nk + length (f_consts (c1 nk na))) (f_na (c1 nk na)))) ->
+  comp_ok ce L fi fp frs c' (p2 ++ p1).
+Proof.
+  intros ce L fi fp frs c1 c2 c' p1 p2 H1 H2 Heq.
+  apply (ok_then ce L fi fp frs c1 c' p1 (p2 ++ p1)
+           (fun nk na => f_code (c2 (nk + length (f_consts (c1 nk na))) (f_na (c1 nk na))))
+           (fun nk na => f_consts (c2 (nk + length (f_consts (c1 nk na))) (f_na (c1 nk na)))));
+    [exact H1 | exact Heq |].
+  intros nk na ip stk s Hm Hs Hl Ha Hk.
+  destruct (H2 _ _ ip (p1 ++ stk) s (stack_ok_push _ _ _ _ p1 Hs) Hl Ha Hk Hm) as [k E].
+  exists k. rewrite E. rewrite <- app_assoc. reflexivity.
+Qed.
+
+Lemma pop_n_rev : forall (vs stk : list (value Q)),
+  pop_n (length vs) (rev vs ++ stk) = Some (vs, stk).
+Proof.
+  intros. unfold pop_n. rewrite app_length, rev_length.
+  destruct (Nat.leb (length vs) (length vs + length stk)) eqn:E; [|apply Nat.leb_gt in E; lia].
+  rewrite <- (rev_length vs) at 1 2.
+  rewrite firstn_length_app, skipn_length_app, rev_involutive. reflexivity.
+Qed.
+
+Lemma evals_length {A B} : forall (ev : A -> res B) l vs, evals ev l = Ok vs -> length vs = length l.
+Proof.
+  induction l; simpl; intros vs H.
+  - inversion H. reflexivity.
+  - apply bind_ok in H. destruct H as (v & _ & H). apply bind_ok in H. destruct H as (vs' & H & E).
+    inversion E. simpl. f_equal. apply IHl. assumption.
+Qed.
+
+Lemma concat_rev_singletons {A} : forall (vs : list A), concat (rev (map (fun v => [v]) vs)) = rev vs.
+Proof.
+  induction vs; simpl; [reflexivity|]. rewrite concat_app. simpl. rewrite IHvs. reflexivity.
+Qed.
+
+(* arguments / elements: left to right *)
+Lemma ok_args : forall n, expr_ok n ->
+  forall vg vn vf L es vs ce fi fp frs,
+    evals (eval O stale n W vg vn vf L) es = Ok vs -> cenv_rel ce vg vn vf ->
+    comp_ok ce L fi fp frs (cseq (map (fun a => cexpr ce a) es)) (rev vs).
+Proof.
+  intros n IH vg vn vf L es vs ce fi fp frs H Hrel.
+  rewrite <- concat_rev_singletons. apply cseq_ok.
+  revert vs H. induction es as [|e es IHes]; simpl; intros vs H.
+  - inversion H. constructor.
+  - apply bind_ok in H. destruct H as (v & Hv & H). apply bind_ok in H. destruct H as (vs' & Hvs & E).
+    inversion E. simpl. constructor; [|apply IHes; assumption].
+    eapply IH; eassumption.
+Qed.
+
+
+Lemma lift_ok : forall (r : res (value Q)) (k : value Q -> sres) v, r = Ok v -> lift r k = k v.
+Proof. intros. subst. reflexivity. Qed.
+
+Lemma ok_un : forall n, expr_ok n -> forall vg vn vf L op a v ce fi fp frs,
+  bind (eval O stale n W vg vn vf L a) (apply_un O op) = Ok v -> cenv_rel ce vg vn vf ->
+  comp_ok ce L fi fp frs (cexpr ce (EUn op a)) [v].
+Proof.
+  intros n IH vg vn vf L op a v ce fi fp frs H Hrel.
+  apply bind_ok in H. destruct H as (va & Ha & Hv).
+  apply (ok_emit ce L fi fp frs (cexpr ce a) _ [va] [v]
+           (fun _ _ => match op with UFact k => chk16 k (IUn op) | _ => IUn op end)).
+  - eapply IH; eassumption.
+  - intros. simpl. split; reflexivity.
+  - intros nk na ip stk s Hm Hs Hl.
+    assert (E : match op with UFact k => chk16 k (IUn op) | _ => IUn op end = IUn op).
+    { destruct op; try reflexivity. apply chk16_ok in Hm. apply Hm. }
+    rewrite E. simpl. rewrite (lift_ok _ _ _ Hv). reflexivity.
+Qed.
+
+Lemma ok_bin : forall n, expr_ok n -> forall vg vn vf L op a b v ce fi fp frs,
+  bind (eval O stale n W vg vn vf L a)
+       (fun va => bind (eval O stale n W vg vn vf L b) (fun vb => apply_bin O op va vb)) = Ok v ->
+  cenv_rel ce vg vn vf ->
+  comp_ok ce L fi fp frs (cexpr ce (EBin op a b)) [v].
+Proof.
+  intros n IH vg vn vf L op a b v ce fi fp frs H Hrel.
+  apply bind_ok in H. destruct H as (va & Ha & H). apply bind_ok in H. destruct H as (vb & Hb & Hv).
+  apply (ok_emit ce L fi fp frs
+           (fun nk na => fapp (cexpr ce a nk na)
+                              (cexpr ce b (nk + length (f_consts (cexpr ce a nk na))) (f_na (cexpr ce a nk na))))
+           _ ([vb] ++ [va]) [v] (fun _ _ => IBin op)).
+  - apply (ok_seq2 ce L fi fp frs (cexpr ce a) (cexpr ce b)).
+    + eapply IH; eassumption.
+    + eapply IH; eassumption.
+    + intros. simpl. split; reflexivity.
+  - intros. simpl. split; reflexivity.
+  - intros nk na ip stk s Hm Hs Hl. simpl. rewrite (lift_ok _ _ _ Hv). reflexivity.
+Qed.
+
+Lemma ok_list : forall n, expr_ok n -> forall vg vn vf L es v ce fi fp frs,
+  bind (evals (eval O stale n W vg vn vf L) es) (fun vs => Ok (VList vs)) = Ok v ->
+  cenv_rel ce vg vn vf ->
+  comp_ok ce L fi fp frs (cexpr ce (EList es)) [v].
+Proof.
+  intros n IH vg vn vf L es v ce fi fp frs H Hrel.
+  apply bind_ok in H. destruct H as (vs & Hvs & Hv). inversion Hv; subst v.
+  apply (ok_emit ce L fi fp frs (cseq (map (fun a => cexpr ce a) es)) _ (rev vs) [VList vs]
+           (fun _ _ => chk16 (length es) (IBuildList (length es)))).
+  - eapply ok_args; eassumption.
+  - intros. simpl. split; reflexivity.
+  - intros nk na ip stk s Hm Hs Hl. apply chk16_ok in Hm. destruct Hm as [Hm _]. rewrite Hm.
+    simpl. rewrite <- (evals_length _ _ _ Hvs). rewrite pop_n_rev. reflexivity.
+Qed.
+
+Lemma index_of_assoc {A} : forall x (fs : list string) (vals : list A) i,
+  index_of x fs = Some i -> length fs = length vals ->
+  exists a, nth_error vals i = Some a /\ assoc x (combine fs vals) = Some a.
+Proof.
+  induction fs as [|f fs IH]; intros vals i; simpl; [discriminate|].
+  destruct vals as [|a vals]; [discriminate|]. simpl.
+  destruct (String.eqb f x).
+  - intros H _. inversion H. exists a. split; reflexivity.
+  - destruct (index_of x fs) as [j|] eqn:E; [|discriminate].
+    intros H Hl. inversion H. simpl. apply (IH vals j eq_refl). lia.
+Qed.
+
+Lemma list_eqb_string_eq : forall a b, list_eqb String.eqb a b = true -> a = b.
+Proof.
+  induction a; destruct b; simpl; intro H; try discriminate; [reflexivity|].
+  apply andb_prop in H. destruct H as [H1 H2]. apply String.eqb_eq in H1. subst. f_equal. auto.
+Qed.
+
+Lemma ok_field : forall n, expr_ok n -> forall vg vn vf L a fname sfields v ce fi fp frs,
+  eval O stale (S n) W vg vn vf L (EField a fname sfields) = Ok v ->
+  cenv_rel ce vg vn vf ->
+  comp_ok ce L fi fp frs (cexpr ce (EField a fname sfields)) [v].
+Proof.
+  intros n IH vg vn vf L a fname sfields v ce fi fp frs H Hrel. simpl in H.
+  apply bind_ok in H. destruct H as (va & Ha & Hv).
+  destruct va; try discriminate.
+  destruct (list_eqb String.eqb fields sfields) eqn:Ef; [|discriminate].
+  destruct (Nat.eqb (length fields) (length vals)) eqn:El; [|discriminate]. simpl in Hv.
+  apply list_eqb_string_eq in Ef. subst fields. apply Nat.eqb_eq in El.
+  simpl. destruct (index_of fname sfields) as [idx|] eqn:Ei.
+  - destruct (index_of_assoc _ _ _ _ Ei El) as (w & Hn & Hw). rewrite Hw in Hv. inversion Hv; subst w.
+    apply (ok_emit ce L fi fp frs (cexpr ce a) _ [VStruct sname sfields vals] [v]
+             (fun _ _ => chk16 idx (IAccessField idx))).
+    + eapply IH; eassumption.
+    + intros. simpl. split; reflexivity.
+    + intros nk na ip stk s Hm Hs Hl. apply chk16_ok in Hm. destruct Hm as [Hm _]. rewrite Hm.
+      simpl. rewrite Hn. reflexivity.
+  - (* the compiler would have panicked: excluded by nomark *)
+    apply (ok_emit ce L fi fp frs (cexpr ce a) _ [VStruct sname sfields vals] [v] (fun _ _ => ICompilePanic)).
+    + eapply IH; eassumption.
+    + intros. simpl. split; reflexivity.
+    + intros nk na ip stk s Hm. discriminate.
+Qed.
+
+Lemma ok_cond : forall n, expr_ok n -> forall vg vn vf L c t e v ce fi fp frs,
+  eval O stale (S n) W vg vn vf L (ECond c t e) = Ok v ->
+  cenv_rel ce vg vn vf ->
+  comp_ok ce L fi fp frs (cexpr ce (ECond c t e)) [v].
+Proof.
+  intros n IH vg vn vf L c t e v ce fi fp frs H Hrel. simpl in H.
+  apply bind_ok in H. destruct H as (vc & Hc & Hv).
+  unfold comp_ok; intros nk na ip stk s Hs Hl Ha Hk Hm. simpl in *.
+  set (fc := cexpr ce c nk na) in *.
+  set (ft := cexpr ce t (nk + length (f_consts fc)) (f_na fc)) in *.
+  set (fe := cexpr ce e (nk + length (f_consts fc) + length (f_consts ft)) (f_na ft)) in *.
+  apply at_code_app in Ha. destruct Ha as [Hac Ha].
+  change (IJumpIfFalse (csize (f_code ft) + 3) :: f_code ft ++ IJump (csize (f_code fe)) :: f_code fe)
+    with ([IJumpIfFalse (csize (f_code ft) + 3)] ++ f_code ft ++ [IJump (csize (f_code fe))] ++ f_code fe) in *.
+  apply at_code_app in Ha. destruct Ha as [Haj Ha].
+  apply at_code_app in Ha. destruct Ha as [Hat Ha].
+  apply at_code_app in Ha. destruct Ha as [Haj2 Hae].
+  apply consts_at_app in Hk. destruct Hk as [Hkc Hk].
+  apply consts_at_app in Hk. destruct Hk as [Hkt Hke].
+  apply nomark_app in Hm. destruct Hm as [Hmc Hm].
+  apply nomark_app in Hm. destruct Hm as [_ Hm].
+  apply nomark_app in Hm. destruct Hm as [Hmt Hm].
+  apply nomark_app in Hm. destruct Hm as [_ Hme].
+  destruct (IH _ _ _ _ _ _ Hc ce fi fp frs Hrel nk na ip stk s Hs Hl Hac Hkc Hmc) as [k1 S1].
+  simpl in S1. fold fc in S1.
+  rewrite !csize_app. simpl csize.
+  destruct vc; try discriminate. destruct b.
+  - (* then branch, then the jump over the else branch *)
+    assert (S2 : steps 1 (St fi (ip + csize (f_code fc)) fp frs (VBool true :: stk) s)
+                 = Some (St fi (ip + csize (f_code fc) + 3) fp frs stk s)).
+    { eapply run_one; [exact Haj|]. reflexivity. }
+    destruct (IH _ _ _ _ _ _ Hv ce fi fp frs Hrel _ _ _ stk s Hs Hl Hat Hkt Hmt) as [k3 S3].
+    simpl in S3. fold fc ft in S3.
+    assert (S4 : steps 1 (St fi (ip + csize (f_code fc) + 3 + csize (f_code ft)) fp frs (v :: stk) s)
+                 = Some (St fi (ip + csize (f_code fc) + 3 + csize (f_code ft) + 3 + csize (f_code fe)) fp frs (v :: stk) s)).
+    { eapply run_one; [exact Haj2|]. reflexivity. }
+    exists (k1 + (1 + (k3 + 1))).
+    rewrite (steps_trans _ _ _ _ _ S1 (steps_trans _ _ _ _ _ S2 (steps_trans _ _ _ _ _ S3 S4))).
+    f_equal. unfold St, F. do 3 f_equal. lia.
+  - assert (S2 : steps 1 (St fi (ip + csize (f_code fc)) fp frs (VBool false :: stk) s)
+                 = Some (St fi (ip + csize (f_code fc) + 3 + (csize (f_code ft) + 3)) fp frs stk s)).
+    { eapply run_one; [exact Haj|]. reflexivity. }
+    replace (ip + csize (f_code fc) + 3 + (csize (f_code ft) + 3))
+      with (ip + csize (f_code fc) + 3 + csize (f_code ft) + 3) in S2 by lia.
+    destruct (IH _ _ _ _ _ _ Hv ce fi fp frs Hrel _ _ _ stk s Hs Hl Hae Hke Hme) as [k3 S3].
+    simpl in S3.
+    exists (k1 + (1 + k3)).
+    rewrite (steps_trans _ _ _ _ _ S1 (steps_trans _ _ _ _ _ S2 S3)).
+    f_equal. unfold St, F. do 3 f_equal. fold fe. lia.
+Qed.
+
 End Sim.
